@@ -17,6 +17,10 @@ pub struct CheckArgs {
     pub tier: Tier,
     pub seed: u64,
     pub threads: usize,
+    /// worker processes of the batch (each with `threads` threads); 1 = the batch runs in this process
+    pub procs: usize,
+    /// this process is a worker: (offset, stride, result file)
+    pub shard: Option<(u64, u64, PathBuf)>,
     pub runs: u64,
     pub max_wall: Duration,
     pub evidence: PathBuf,
@@ -40,7 +44,7 @@ pub fn run_seed(seed: u64, property: &str, i: u64) -> u64 {
     mix(mix(seed ^ p).wrapping_add(i.wrapping_mul(0x9E37_79B9_7F4A_7C15)))
 }
 
-#[derive(Clone)]
+#[derive(Clone, serde::Serialize, serde::Deserialize)]
 struct Found {
     run_index: u64,
     case: Case,
@@ -48,6 +52,7 @@ struct Found {
     count: u64,
 }
 
+#[derive(serde::Serialize, serde::Deserialize)]
 struct Shared {
     stats: Stats,
     found: BTreeMap<String, Found>,
@@ -143,7 +148,12 @@ pub fn replay(path: &Path, base: &Path) -> Result<(bool, bool, String), String> 
     let r = evaluate(&rf.case, base, "replay");
     let digest = format!("{:016x}", r.event_digest);
     match r.violations.iter().find(|v| v.signature() == rf.signature) {
-        Some(v) => Ok((true, digest == rf.event_digest, v.message.clone())),
+        Some(v) => {
+            if digest != rf.event_digest {
+                println!("note: event digest of this replay is {digest} (file records {})", rf.event_digest);
+            }
+            Ok((true, digest == rf.event_digest, v.message.clone()))
+        }
         None => {
             let others: Vec<String> = r.violations.iter().map(|v| v.signature()).collect();
             Ok((false, digest == rf.event_digest, format!("no violation with signature {} (found: {:?})", rf.signature, others)))
@@ -152,6 +162,9 @@ pub fn replay(path: &Path, base: &Path) -> Result<(bool, bool, String), String> 
 }
 
 pub fn replay_cmd(path: &Path) -> i32 {
+    // (evaluation changes the working directory)
+    let abs = std::fs::canonicalize(path).unwrap_or_else(|_| path.to_path_buf());
+    let path = abs.as_path();
     let base = scratch_base();
     let r = replay(path, &base);
     let _ = std::fs::remove_dir_all(&base);
@@ -269,60 +282,33 @@ pub fn fidelity(property: &str, seed: u64, tier: Tier, n: u64, real_bin: &Path, 
 // check
 // ------------------------------------------------------------------------------------------------
 
-pub fn check(a: &CheckArgs) -> i32 {
-    let t0 = Instant::now();
-    let base = scratch_base();
-    let _ = std::fs::create_dir_all(&base);
-    let mut harness_errors: Vec<String> = vec![];
+enum WorkerFailure {
+    Died(i32),
+    Harness(String),
+}
 
-    // 1. seam completeness guard
-    let unhooked = super::guard::scan_repo();
-    for u in &unhooked {
-        println!("WARNING unhooked effect site: {u}");
-    }
+#[derive(serde::Serialize, serde::Deserialize)]
+struct ShardResult {
+    shared: Shared,
+    runs_done: u64,
+    spins: u32,
+}
 
-    // 2. known findings of this property: replay each, print KNOWN-FINDING for those that reproduce
-    let known = match load_known(&a.known) {
-        Ok(k) => k,
-        Err(e) => {
-            harness_errors.push(e);
-            vec![]
-        }
-    };
-    let mut known_lines = vec![];
-    let known_dir = a.known.parent().map(|p| p.to_path_buf()).unwrap_or_default();
-    for k in known.iter().filter(|k| k.property == a.property) {
-        let p = known_dir.join(&k.replay);
-        match replay(&p, &base) {
-            Ok((true, _, msg)) => {
-                let line = format!("KNOWN-FINDING: property={} {} [{}] :: {}", k.property, k.description, k.signature, msg);
-                println!("{line}");
-                known_lines.push(line);
-            }
-            Ok((false, _, _)) => {
-                println!("note: listed finding {} no longer reproduces (not suppressing anything for it)", k.signature);
-            }
-            Err(e) => harness_errors.push(format!("known finding replay: {e}")),
-        }
-    }
-    let known_sigs: Vec<String> = known.iter().filter(|k| k.property == a.property).map(|k| k.signature.clone()).collect();
-
-    // 3. batch
+/// The seeded batch: run indices `offset, offset+stride, ...` below `a.runs` on `a.threads` threads.
+fn run_batch(a: &CheckArgs, base: &Path, offset: u64, stride: u64, deadline: Instant) -> (Shared, u64) {
     let shared = Mutex::new(Shared { stats: Stats::default(), found: BTreeMap::new(), digests: BTreeMap::new(), samples: vec![], total_violating_runs: 0 });
     let next = AtomicU64::new(0);
-    let deadline = t0 + a.max_wall;
     let done_runs = AtomicU64::new(0);
     std::thread::scope(|s| {
         for tid in 0..a.threads {
             let shared = &shared;
             let next = &next;
-            let base = &base;
             let done_runs = &done_runs;
             s.spawn(move || {
                 let mut local = Stats::default();
                 let name = format!("{}-t{tid}", a.property);
                 loop {
-                    let i = next.fetch_add(1, Ordering::SeqCst);
+                    let i = offset + next.fetch_add(1, Ordering::SeqCst) * stride;
                     if i >= a.runs || Instant::now() > deadline || super::exec::spin_count() >= 3 {
                         break;
                     }
@@ -368,8 +354,172 @@ pub fn check(a: &CheckArgs) -> i32 {
             });
         }
     });
+    (shared.into_inner().unwrap(), done_runs.load(Ordering::SeqCst))
+}
+
+/// entry point of a worker process
+pub fn shard(a: &CheckArgs) -> i32 {
+    let Some((offset, stride, out)) = a.shard.clone() else { return 2 };
+    let base = scratch_base();
+    let _ = std::fs::create_dir_all(&base);
+    let (shared, runs_done) = run_batch(a, &base, offset, stride, Instant::now() + a.max_wall);
+    let res = ShardResult { shared, runs_done, spins: super::exec::spin_count() };
+    let ok = serde_json::to_vec(&res).ok().and_then(|v| std::fs::write(&out, v).ok()).is_some();
+    let _ = std::fs::remove_dir_all(&base);
+    if ok {
+        0
+    } else {
+        2
+    }
+}
+
+fn run_batch_in_workers(a: &CheckArgs, base: &Path, deadline: Instant) -> Result<(Shared, u64), WorkerFailure> {
+    let exe = std::env::current_exe().map_err(|e| WorkerFailure::Harness(format!("current_exe: {e}")))?;
+    let left = deadline.saturating_duration_since(Instant::now()).as_secs().max(1);
+    let mut kids = vec![];
+    for k in 0..a.procs {
+        let out = base.join(format!("shard-{k}.json"));
+        let child = std::process::Command::new(&exe)
+            .arg("shard")
+            .arg(&a.property)
+            .args(["--tier", tier_name(a.tier)])
+            .args(["--seed", &a.seed.to_string()])
+            .args(["--runs", &a.runs.to_string()])
+            .args(["--threads", &a.threads.to_string()])
+            .args(["--selftest", &a.selftest.to_string()])
+            .args(["--max-wall-s", &left.to_string()])
+            .args(["--offset", &k.to_string()])
+            .args(["--stride", &a.procs.to_string()])
+            .arg("--out")
+            .arg(&out)
+            .stdin(std::process::Stdio::null())
+            .spawn()
+            .map_err(|e| WorkerFailure::Harness(format!("spawn worker: {e}")))?;
+        kids.push((k, child, out));
+    }
+    let mut merged = Shared { stats: Stats::default(), found: BTreeMap::new(), digests: BTreeMap::new(), samples: vec![], total_violating_runs: 0 };
+    let mut runs_done = 0u64;
+    let mut died: Option<i32> = None;
+    let mut harness: Option<String> = None;
+    for (k, mut child, out) in kids {
+        let pid = child.id();
+        let status = child.wait().map_err(|e| WorkerFailure::Harness(format!("wait worker: {e}")))?;
+        let code = status.code().unwrap_or_else(|| 128 + std::os::unix::process::ExitStatusExt::signal(&status).unwrap_or(0));
+        // (the simulator binary reports 0/1/2 as 40/41/42)
+        if code != 0 && code != 40 {
+            // keep what the worker had in flight where the wrapper script looks for it
+            let kb = PathBuf::from(format!("/dev/shm/tsverif-{pid}"));
+            if let Ok(rd) = std::fs::read_dir(&kb) {
+                for e in rd.flatten() {
+                    let n = e.file_name().to_string_lossy().into_owned();
+                    if n.starts_with("in-flight-") {
+                        let _ = std::fs::copy(e.path(), base.join(format!("{n}-w{k}")));
+                    }
+                }
+            }
+            let _ = std::fs::remove_dir_all(&kb);
+            if code == 2 || code == 42 {
+                harness.get_or_insert(format!("batch worker {k} reported a harness error"));
+            } else {
+                died.get_or_insert(code);
+            }
+            continue;
+        }
+        let res: ShardResult = std::fs::read(&out)
+            .map_err(|e| e.to_string())
+            .and_then(|v| serde_json::from_slice(&v).map_err(|e| e.to_string()))
+            .map_err(|e| WorkerFailure::Harness(format!("worker {k} result: {e}")))?;
+        let _ = std::fs::remove_file(&out);
+        runs_done += res.runs_done;
+        super::exec::add_spins(res.spins);
+        merged.stats.merge(res.shared.stats);
+        merged.digests.extend(res.shared.digests);
+        merged.samples.extend(res.shared.samples);
+        merged.total_violating_runs += res.shared.total_violating_runs;
+        for (sig, f) in res.shared.found {
+            match merged.found.get_mut(&sig) {
+                None => {
+                    merged.found.insert(sig, f);
+                }
+                Some(e) => {
+                    e.count += f.count;
+                    if f.run_index < e.run_index {
+                        e.run_index = f.run_index;
+                        e.case = f.case;
+                        e.violation = f.violation;
+                    }
+                }
+            }
+        }
+    }
+    if let Some(c) = died {
+        return Err(WorkerFailure::Died(c));
+    }
+    if let Some(h) = harness {
+        return Err(WorkerFailure::Harness(h));
+    }
+    Ok((merged, runs_done))
+}
+
+pub fn check(a: &CheckArgs) -> i32 {
+    let t0 = Instant::now();
+    let base = scratch_base();
+    let _ = std::fs::create_dir_all(&base);
+    let mut harness_errors: Vec<String> = vec![];
+
+    // 1. seam completeness guard
+    let unhooked = super::guard::scan_repo();
+    for u in &unhooked {
+        println!("WARNING unhooked effect site: {u}");
+    }
+
+    // 2. known findings of this property: replay each, print KNOWN-FINDING for those that reproduce
+    let known = match load_known(&a.known) {
+        Ok(k) => k,
+        Err(e) => {
+            harness_errors.push(e);
+            vec![]
+        }
+    };
+    let mut known_lines = vec![];
+    let known_dir = a.known.parent().map(|p| p.to_path_buf()).unwrap_or_default();
+    for k in known.iter().filter(|k| k.property == a.property) {
+        let p = known_dir.join(&k.replay);
+        match replay(&p, &base) {
+            Ok((true, _, msg)) => {
+                let line = format!("KNOWN-FINDING: property={} {} [{}] :: {}", k.property, k.description, k.signature, msg);
+                println!("{line}");
+                known_lines.push(line);
+            }
+            Ok((false, _, _)) => {
+                println!("note: listed finding {} no longer reproduces (not suppressing anything for it)", k.signature);
+            }
+            Err(e) => harness_errors.push(format!("known finding replay: {e}")),
+        }
+    }
+    let known_sigs: Vec<String> = known.iter().filter(|k| k.property == a.property).map(|k| k.signature.clone()).collect();
+
+    // 3. batch (in worker processes: one address space per worker keeps the kernel's per-process
+    //    memory-map lock out of the way, which otherwise limits the batch to about four cores)
+    let deadline = t0 + a.max_wall;
+    let (mut sh, runs_done) = if a.procs <= 1 {
+        run_batch(a, &base, 0, 1, deadline)
+    } else {
+        match run_batch_in_workers(a, &base, deadline) {
+            Ok(x) => x,
+            Err(WorkerFailure::Died(status)) => {
+                // a worker died (abort, stack overflow in the code under test): the wrapper script
+                // probes the runs that were in flight (copied into this process's scratch area)
+                println!("note: a batch worker process died with status {status}");
+                return status;
+            }
+            Err(WorkerFailure::Harness(e)) => {
+                println!("HARNESS-ERROR {e}");
+                return 2;
+            }
+        }
+    };
     let batch_wall = t0.elapsed().as_secs_f64();
-    let mut sh = shared.into_inner().unwrap();
 
     // 3b. directed scenarios: hand-written cases for conditions the generator reaches rarely
     let mut directed_done = 0u64;
@@ -405,7 +555,6 @@ pub fn check(a: &CheckArgs) -> i32 {
             sh.stats.merge(r.stats);
         }
     }
-    let runs_done = done_runs.load(Ordering::SeqCst);
 
     // 4. determinism self-test: re-run the first `selftest` run indices on one thread, other scratch
     //    name, and compare the full event digests
